@@ -52,6 +52,8 @@ def nas_float_free(rep, ctx):
 def run(ctx, rep):
     lib = ctx.lib
     NR.parse_direct(rep, lib)
+    from rules import parser_rules as _PRS
+    _PRS.digits(rep, lib)
     NR.int_ctor(rep, lib)
     NR.float_window(rep, lib)
     NR.float_ctor(rep, lib)
